@@ -1,6 +1,7 @@
 package c13
 
 import (
+	"regexp"
 	"context"
 	"encoding/json"
 	"fmt"
@@ -32,7 +33,7 @@ type Doc struct {
 	ObjAs   string         `json:"obj_as,omitempty"`   // inline json-string yaml-string
 	Merge   map[string]any `json:"merge,omitempty"`    // merge patch
 	JSONP   []any          `json:"jsonp,omitempty"`    // json patch
-	PatchAs string         `json:"patch_as,omitempty"` // inline string
+	PatchAs string         `json:"patch_as,omitempty"` // inline string yaml-string flow-string
 	JQ      string         `json:"jq,omitempty"`
 	Sub     string         `json:"sub,omitempty"`
 	Ignore  bool           `json:"ignore,omitempty"`
@@ -148,7 +149,7 @@ func gen(t *rapid.T) Case {
 				d.Merge = map[string]any{"status": map[string]any{"phase": rapid.SampledFrom([]string{"Ready", "Failed"}).Draw(t, "mph")}}
 				d.Sub = rapid.SampledFrom([]string{"", "status"}).Draw(t, "sub")
 			}
-			d.PatchAs = rapid.SampledFrom([]string{"inline", "inline", "string"}).Draw(t, "pas")
+			d.PatchAs = rapid.SampledFrom([]string{"inline", "inline", "string", "yaml-string", "flow-string"}).Draw(t, "pas")
 			d.Ignore = rapid.Bool().Draw(t, "ignore")
 		case "JSONPatch":
 			k := rapid.IntRange(1, 2).Draw(t, "nj")
@@ -161,7 +162,7 @@ func gen(t *rapid.T) Case {
 				}
 				d.JSONP = append(d.JSONP, map[string]any{"op": op, "path": path, "value": v})
 			}
-			d.PatchAs = rapid.SampledFrom([]string{"inline", "inline", "string"}).Draw(t, "pas")
+			d.PatchAs = rapid.SampledFrom([]string{"inline", "inline", "string", "yaml-string", "flow-string"}).Draw(t, "pas")
 			d.Ignore = rapid.Bool().Draw(t, "ignore")
 		case "JQPatch":
 			d.JQ = rapid.SampledFrom([]string{`.data.a = "j"`, `.data.c = "j"`, `del(.data.a)`, `del(.data.b)`, `.spec.size = "j"`, `.metadata.labels.app = "j"`}).Draw(t, "jq")
@@ -201,19 +202,9 @@ func (d Doc) spec() map[string]any {
 	}
 	switch d.Op {
 	case "MergePatch":
-		if d.PatchAs == "string" {
-			b, _ := json.Marshal(d.Merge)
-			m["mergePatch"] = string(b)
-		} else {
-			m["mergePatch"] = kit.DeepCopyJSON(d.Merge)
-		}
+		m["mergePatch"] = patchAs(d.PatchAs, d.Merge)
 	case "JSONPatch":
-		if d.PatchAs == "string" {
-			b, _ := json.Marshal(d.JSONP)
-			m["jsonPatch"] = string(b)
-		} else {
-			m["jsonPatch"] = kit.DeepCopyJSON(d.JSONP)
-		}
+		m["jsonPatch"] = patchAs(d.PatchAs, d.JSONP)
 	case "JQPatch":
 		m["jqFilter"] = d.JQ
 	}
@@ -257,6 +248,25 @@ func (d Doc) spec() map[string]any {
 		m["force"] = true
 	}
 	return m
+}
+
+var reQuotedKey = regexp.MustCompile(`"([A-Za-z_][A-Za-z0-9_]*)":`)
+
+// patchAs renders a patch inline or as one of the documented string forms: stringified JSON, stringified YAML in
+// block style, stringified YAML in flow style (JSON-like, keys unquoted).
+func patchAs(how string, v any) any {
+	switch how {
+	case "string":
+		b, _ := json.Marshal(v)
+		return string(b)
+	case "yaml-string":
+		b, _ := yaml.Marshal(v)
+		return string(b)
+	case "flow-string":
+		b, _ := json.Marshal(v)
+		return reQuotedKey.ReplaceAllString(string(b), "$1: ")
+	}
+	return kit.DeepCopyJSON(v)
 }
 
 func render(docs []Doc, format string) []byte {
@@ -634,7 +644,7 @@ func runCase(c Case) (ev.Info, error) {
 	return info, nil
 }
 
-const rule = "streams of 1-6 operation documents (three create variants with the object inline, as JSON string or as YAML string; three delete modes; MergePatch/JSONPatch inline or as string; JQPatch; subresource; ignoreMissingObject) over ConfigMaps and a CRD kind in 2 namespaces with a generated initial state; each stream rendered as concatenated JSON, indented JSON documents, ----separated YAML and ----separated YAML whose first document is written in JSON style and executed on identical fake clusters: final states equal a reference model (RFC 7386 merge, add/replace/remove JSON patch, jq), error/no-error equals the reference, client actions identical across renderings, one primary API call per document; 1 in 4 streams has one invalid document at a generated position: rejected in every rendering, cluster unchanged. Non-trivial: >= 2 operations touch the same object, or an invalid stream."
+const rule = "streams of 1-6 operation documents (three create variants with the object inline, as JSON string or as YAML string; three delete modes; MergePatch/JSONPatch inline or as a string of JSON, block-style YAML or flow-style YAML; JQPatch; subresource; ignoreMissingObject) over ConfigMaps and a CRD kind in 2 namespaces with a generated initial state; each stream rendered as concatenated JSON, indented JSON documents, ----separated YAML and ----separated YAML whose first document is written in JSON style and executed on identical fake clusters: final states equal a reference model (RFC 7386 merge, add/replace/remove JSON patch, jq), error/no-error equals the reference, client actions identical across renderings, one primary API call per document; 1 in 4 streams has one invalid document at a generated position: rejected in every rendering, cluster unchanged. Non-trivial: >= 2 operations touch the same object, or an invalid stream."
 
 func TestPatch(t *testing.T) {
 	ev.Main(t, ev.Spec[Case]{Property: "C13", Part: "patch", Rule: rule, Gen: gen, Run: runCase})
